@@ -159,19 +159,52 @@ func (e *Engine) verifyFunc(bc *BoundContract) (res *FuncResult) {
 			rvars[k] = v
 		}
 		bc.bindResults(rvars, results)
-		env2 := &SpecEnv{cx: cx, pkg: pkg, vars: rvars, cur: exitSt, old: entry}
+		// every postcondition is checked on each return path with that path's own
+		// state (one obligation: the conjunction over the return paths)
+		type retEnv struct {
+			reach *Term
+			env   *SpecEnv
+			vars  map[string]Val
+		}
+		var renvs []retEnv
+		for _, r := range fr.rets {
+			rv := map[string]Val{}
+			for k, v := range fr.vars {
+				rv[k] = v
+			}
+			bc.bindResults(rv, r.results)
+			renvs = append(renvs, retEnv{reach: r.reach, vars: rv, env: &SpecEnv{cx: cx, pkg: pkg, vars: rv, cur: r.st, old: entry}})
+		}
 		for i, en := range bc.C.Ensures {
 			if en.Assumed {
 				continue
 			}
-			if g := fr.evalClause(env2, en); g != nil {
-				o := cx.newObligation("ensures", clauseLabel(en, i), en.Text, fmt.Sprintf("%s:%d", en.File, en.Line), exitReach, g, clauseProps(en, bc.C.Props))
-				_ = o
+			var cs []*Term
+			okAll := true
+			for _, re := range renvs {
+				g := fr.evalClause(re.env, en)
+				if g == nil {
+					okAll = false
+					break
+				}
+				cs = append(cs, b.Implies(re.reach, g))
+			}
+			if okAll {
+				ob := cx.newObligation("ensures", clauseLabel(en, i), en.Text, fmt.Sprintf("%s:%d", en.File, en.Line), b.True(), b.And(cs...), clauseProps(en, bc.C.Props))
+				if len(cs) > 1 {
+					ob.parts = cs
+				}
 			}
 		}
 		for _, fname := range bc.C.Fresh {
-			if rv, ok := rvars[fname]; ok && rv.t != nil && rv.t.sort == SLoc {
-				cx.newObligation("ensures", "fresh-"+fname, "result "+fname+" is a freshly allocated object", fmt.Sprintf("%s:%d", bc.C.File, bc.C.Line), exitReach, b.Or(b.IsNil(rv.t), b.mk("(_ is New)", SBool, rv.t)), bc.C.Props)
+			var cs []*Term
+			for _, re := range renvs {
+				if rv, ok := re.vars[fname]; ok && rv.t != nil && rv.t.sort == SLoc {
+					cs = append(cs, b.Implies(re.reach, b.Or(b.IsNil(rv.t), b.mk("(_ is New)", SBool, rv.t))))
+				}
+			}
+			if len(cs) > 0 {
+				cx.newObligation("ensures", "fresh-"+fname, "result "+fname+" is a freshly allocated object", fmt.Sprintf("%s:%d", bc.C.File, bc.C.Line), b.True(), b.And(cs...), bc.C.Props)
 			}
 		}
 		// frame
@@ -182,7 +215,13 @@ func (e *Engine) verifyFunc(bc *BoundContract) (res *FuncResult) {
 				mods = append(mods, fr.evalLocs(menv, x, mc)...)
 			}
 		}
-		fr.frameCheck("exit", entry, exitSt, mods, fn.Pos())
+		var tos []frameTo
+		for _, r := range fr.rets {
+			tos = append(tos, frameTo{reach: r.reach, st: r.st})
+		}
+		fr.reach = b.True()
+		fr.frameCheckMulti("exit", entry, tos, mods, fn.Pos())
+		fr.reach = exitReach
 	} else if len(cx.undecided) == 0 {
 		cx.undecide("no normal return of %s is reachable in the model", fn)
 	}
